@@ -17,6 +17,77 @@ pub struct Case {
 }
 pub struct C03;
 
+/// Long inputs for the child-process part of the check: (language, text). `n` scales the sparse inputs;
+/// number-dense inputs are kept shorter because rewriting a stream is quadratic in the number of occurrences.
+pub fn long_inputs(n: usize) -> Vec<(&'static str, String)> {
+    let dense = (n / 50).max(1000);
+    let mut v: Vec<(&'static str, String)> = vec![
+        ("en", "cows ".repeat(n)),
+        ("fr", "vaches, ".repeat(n)),
+        ("de", format!("{}zwanzig fünf", "Haus ".repeat(n))),
+        ("en", format!("twenty five {}", "the ".repeat(n))),
+        ("es", "a".repeat(n * 4)),
+        ("it", "-".repeat(n * 4)),
+        ("nl", "'".repeat(n * 4)),
+        ("pt", " \t\n".repeat(n)),
+        ("en", ". ".repeat(n)),
+        ("en", "and ".repeat(n)),
+        ("en", "point ".repeat(n)),
+        ("en", "o ".repeat(dense)),
+        ("en", "one ".repeat(dense)),
+        ("fr", "zéro ".repeat(dense)),
+        ("en", "twenty one ".repeat(dense)),
+        ("en", format!("three point {}", "one ".repeat(dense))),
+        ("en", format!("twenty{}", "-one".repeat(n))),
+        ("fr", format!("vingt{}", "-et-un".repeat(n))),
+        ("de", "und".repeat(n)),
+        ("de", "tausend".repeat(n)),
+        ("de", format!("ein{}", "undzwanzig".repeat(dense))),
+        ("it", "cento".repeat(n)),
+        ("nl", "honderd".repeat(n)),
+        ("nl", format!("een{}", "entwintig".repeat(dense))),
+        ("es", "mil ".repeat(dense)),
+        ("pt", "mil e ".repeat(dense)),
+        ("en", "first second ".repeat(dense)),
+        ("de", "eins komma ".repeat(dense)),
+    ];
+    v.push(("en", format!("{} o {}", "x ".repeat(n), "y ".repeat(n))));
+    v
+}
+/// child process body: runs every entry point on long input #i in a thread with the default 2 MiB stack
+pub fn long_worker(status_file: &str, n: usize, only: Option<usize>) {
+    let inputs = long_inputs(n);
+    for (i, (l, text)) in inputs.iter().enumerate() {
+        if only.map_or(false, |o| o != i) {
+            continue;
+        }
+        let _ = std::fs::write(status_file, format!("running {}", i));
+        let (l, text) = (l.to_string(), text.clone());
+        let h = std::thread::Builder::new().spawn(move || {
+            let lg = lang(&l);
+            for th in [0.0f64, 10.0] {
+                let _ = text2digits(&text, lg);
+                let _ = replace_numbers_in_text(&text, lg, th);
+                let toks = tokens_of(&text);
+                let _ = find_numbers(toks.iter(), lg, th).len();
+                let mut it = find_numbers_iter(toks.iter(), lg, th);
+                let mut k = 0usize;
+                while let Some(_o) = it.next() {
+                    k += 1;
+                }
+                let _ = (it.next().is_some(), k);
+            }
+        });
+        // a panic in the thread is a violation too, but it is reported by the generated part; here we only need "returns"
+        let r = h.map(|h| h.join());
+        if !matches!(r, Ok(Ok(()))) {
+            let _ = std::fs::write(status_file, format!("panicked {}", i));
+            std::process::exit(3);
+        }
+    }
+    let _ = std::fs::write(status_file, format!("done {}", inputs.len()));
+}
+
 /// run every entry point on (lang, text, threshold); Err on panic or on a wrong non-number verdict
 pub fn all_entry_points(lang_code: &str, text: &str, th: f64) -> Result<usize, String> {
     let lg = lang(lang_code);
@@ -60,7 +131,7 @@ impl Property for C03 {
         "C03"
     }
     fn rule(&self) -> String {
-        "Generated: (language, text, repeat, threshold) with text drawn from any::<String>(), \\PC*, whitespace-only, hyphen/apostrophe-only, a pool of hostile fragments (combining marks, non-Latin digits, ZWSP, BOM, NUL, ß, İ, ligatures, line separators), and the dirty sentence generator (vocabulary words glued, truncated, recased); repeat up to 2000 for long inputs; thresholds incl. NaN, ±inf, negative, subnormal. Every entry point (text2digits, replace_numbers_in_text, find_numbers, find_numbers_iter drained then polled twice, replace_numbers_in_stream, get_interpreter_for) is called under catch_unwind; text2digits must answer Err for texts without any alphanumeric character and never Ok(\"\"). Enumerated: every string of length <= 3 over a 9-character alphabet x 7 languages. Non-trivial = distinct (lang,text) with no alphanumeric char, or a multi-byte char, or a hyphen/apostrophe at a token edge, or total length > 1000, or a non-finite threshold.".into()
+        "Generated: (language, text, repeat, threshold) with text drawn from any::<String>(), \\PC*, whitespace-only, hyphen/apostrophe-only, a pool of hostile fragments (combining marks, non-Latin digits, ZWSP, BOM, NUL, ß, İ, ligatures, line separators), and the dirty sentence generator (vocabulary words glued, truncated, recased); repeat up to 2000 for long inputs; thresholds incl. NaN, ±inf, negative, subnormal. Every entry point (text2digits, replace_numbers_in_text, find_numbers, find_numbers_iter drained then polled twice, replace_numbers_in_stream, get_interpreter_for) is called under catch_unwind; text2digits must answer Err for texts without any alphanumeric character and never Ok(\"\"). Enumerated: every string of length <= 3 over a 9-character alphabet x 7 languages. Whole-run procedure: 29 very long inputs (400 000 / 2 000 000 repetitions of ordinary words, punctuation, hyphens, apostrophes, whitespace, conjunction/separator words; 8 000 / 40 000 repetitions of number words, decimals, ordinals; one-token hyphen chains and German/Italian/Dutch glued compounds of that length) are run through text2digits, replace_numbers_in_text, find_numbers and find_numbers_iter in a child process on a default 2 MiB thread stack; the child being killed (stack overflow, abort) or panicking is a violation attributed to the running input; exceeding the time cap is inconclusive. Non-trivial = distinct (lang,text) with no alphanumeric char, or a multi-byte char, or a hyphen/apostrophe at a token edge, or total length > 1000, or a non-finite threshold.".into()
     }
     fn assumptions(&self) -> Vec<String> {
         vec!["non-termination would show as the watchdog expiring (exit 2, inconclusive), not as a violation".into()]
@@ -102,6 +173,64 @@ impl Property for C03 {
                 return;
             }
         }
+    }
+    fn fuzz_target(&self) -> Option<&'static str> {
+        Some("text_api")
+    }
+    fn from_fuzz_bytes(&self, data: &[u8]) -> Option<Case> {
+        let t = crate::fuzzdec::decode_text(data);
+        Some(Case { lang: t.lang.into(), text: t.text, repeat: 1, th_bits: t.th_bits })
+    }
+    fn extra(&self, tier: Tier, seed: u64, obs: &mut Obs) -> Result<(), (String, serde_json::Value)> {
+        // very long inputs, in a child process on a default-size thread stack: a stack overflow or abort
+        // kills the child (not the harness) and is attributed to the input that was running
+        let n = tier.pick(400_000usize, 2_000_000usize);
+        let exe = std::env::current_exe().unwrap_or_else(|_| infra("cannot locate own executable"));
+        let status_file = std::env::temp_dir().join(format!("t2n-verif-long-{}-{}.status", std::process::id(), seed));
+        let _ = std::fs::remove_file(&status_file);
+        let t0 = std::time::Instant::now();
+        let mut child = std::process::Command::new(exe)
+            .arg("--c03-long-worker")
+            .arg(&status_file)
+            .arg(n.to_string())
+            .stdin(std::process::Stdio::null())
+            .stdout(std::process::Stdio::null())
+            .stderr(std::process::Stdio::null())
+            .spawn()
+            .unwrap_or_else(|e| infra(&format!("cannot spawn the long-input worker: {}", e)));
+        let cap = std::time::Duration::from_secs(tier.pick(600, 3000));
+        let st = loop {
+            match child.try_wait() {
+                Ok(Some(st)) => break st,
+                Ok(None) => {
+                    if t0.elapsed() > cap {
+                        let _ = child.kill();
+                        let status = std::fs::read_to_string(&status_file).unwrap_or_default();
+                        let _ = std::fs::remove_file(&status_file);
+                        infra(&format!("long-input worker still running after {:?} ({}): inconclusive, not a verdict", cap, status));
+                    }
+                    std::thread::sleep(std::time::Duration::from_millis(50));
+                }
+                Err(e) => infra(&format!("long-input worker: {}", e)),
+            }
+        };
+        let status = std::fs::read_to_string(&status_file).unwrap_or_default();
+        let _ = std::fs::remove_file(&status_file);
+        let inputs = long_inputs(8);
+        if st.success() && status.starts_with("done ") {
+            obs.evaluations += inputs.len() as u64 * 8;
+            obs.label("long-inputs-returned(child process, 2MiB stack)");
+            return Ok(());
+        }
+        let idx: usize = status.split_whitespace().nth(1).and_then(|x| x.parse().ok()).unwrap_or(usize::MAX);
+        if idx == usize::MAX {
+            infra(&format!("long-input worker ended abnormally before its first input (status {:?}, exit {:?})", status, st));
+        }
+        let (l, sample) = inputs.get(idx).map(|(l, t)| (*l, t.chars().take(60).collect::<String>())).unwrap_or(("?", String::new()));
+        Err((
+            format!("an entry point did not return on very long input #{} (lang {}, shape {:?}... x{}): child {} ({:?})", idx, l, sample, n, if status.starts_with("panicked") { "panicked" } else { "was killed (stack overflow / abort)" }, st),
+            serde_json::json!({"lang": l, "text": format!("<long input #{} scaled by {}>", idx, n), "repeat": 1, "th_bits": 0}),
+        ))
     }
     fn check(&self, c: &Case, obs: &mut Obs) -> Result<(), String> {
         let text = if c.repeat <= 1 { c.text.clone() } else { c.text.repeat(c.repeat as usize) };
